@@ -253,6 +253,13 @@ def gen_specs(tier, seed_):
     add('epc', name='\u20ac' * 70, iban='DE33100205000001194700', amount='12.5', text='\u20ac' * 60)          # ISO 8859-15: 130 bytes
     add('epc', must_refuse=True, name='N', iban='DE33100205000001194700', amount='1', text='\U0001f600' * 80)
     add('epc', name='\u5c71' * 20, iban='DE33100205000001194700', amount='1', text='\u5b57' * 60)       # 3 * 80 + ~60: fits
+    # white space INSIDE the remittance text / the name is part of the value (runs of blanks, tabs, no-break spaces, leading blanks): it is
+    # neither collapsed nor does it shorten the text for the 140 character limit
+    for txt in ('Rechnung 4711  Kd.-Nr. 0815', 'a\tb', 'a\u00a0b', ' leading blank', 'a   b    c', 'x' + ' ' * 100 + 'y', 'two  blanks\u00a0and\ttab', '  x', 'a \u2003 b'):
+        add('epc', name='Max  Mustermann', iban='DE33100205000001194700', amount='1', text=txt)
+        add('epc', name='N\u00a0N', iban='DE33100205000001194700', amount='2.5', text=txt, encoding=1)
+    add('epc', must_refuse=True, name='N', iban='DE33100205000001194700', amount='1', text='x' + ' ' * 139 + 'y')
+    add('epc', must_refuse=True, name='N', iban='DE33100205000001194700', amount='1', text='x\t' * 70 + 'y')
     # limits must be refused
     base = dict(name='N', iban='DE33100205000001194700', amount='1', text='t')
     for bad in (dict(amount='0'), dict(amount='0.009'), dict(amount='1000000000'), dict(amount='-1'), dict(name=''), dict(name='A' * 71), dict(iban='DE33'),
